@@ -1,14 +1,15 @@
 #!/usr/bin/env python3
 """seedreg.py <src dir> <seed id> <prop> [<prop>...] : confirm with seedtest.py and store under /verif/seeded/<seed id>/"""
 import os, sys, json, shutil, subprocess
+_VERIF = os.path.dirname(os.path.dirname(os.path.abspath(__file__)))   # the tree this script belongs to (a vp-run snapshot runs ITS OWN checks)
 src, sid, props = sys.argv[1], sys.argv[2], sys.argv[3:]
-r = subprocess.run([sys.executable, "/verif/tools/seedtest.py", src] + props, stdout=subprocess.PIPE, text=True)
+r = subprocess.run([sys.executable, os.path.join(_VERIF, "tools", "seedtest.py"), src] + props, stdout=subprocess.PIPE, text=True)
 res = json.loads(r.stdout[r.stdout.index("{"):])
 ok = res.get("patch_applies") and res.get("demo_clean") == "ok" and res.get("demo_mut") == "FAILED" and res.get("suite_with_patch") == "ok"
 print(sid, "confirmed" if ok else "NOT CONFIRMED", {k: v["exit"] for k, v in res.items() if k.startswith("check_")})
 if not ok:
     print(json.dumps(res, indent=1)); sys.exit(1)
-dst = os.path.join("/verif/seeded", sid)
+dst = os.path.join(_VERIF, "seeded", sid)
 os.makedirs(dst, exist_ok=True)
 shutil.copy(os.path.join(src, "patch.diff"), dst)
 shutil.copy(os.path.join(src, "demo.rs"), dst)
